@@ -1,12 +1,11 @@
-//! tfh - correspondence harness: runs the real twenty-first implementation on case files.
-//! Usage: tfh <property> < cases ; each input line `<id> <op> <args...>` yields one output line `<id> <result>`.
+//! tfh - shared glue of the correspondence harness binaries (one binary per property in src/bin/).
+//! Each binary reads case lines `<id> <op> <args...>` on stdin and prints `<id> <result>` per line;
+//! a panic inside the implementation is caught and printed as `PANIC`.
 use std::io::{BufRead, Write};
 use std::panic;
 
-mod c01;
-
-fn main() {
-    let prop = std::env::args().nth(1).expect("property id");
+/// Run the line loop with the given per-case function.
+pub fn main_loop(run: fn(&str, &[String]) -> String) {
     panic::set_hook(Box::new(|_| {}));
     let stdin = std::io::stdin();
     let stdout = std::io::stdout();
@@ -21,13 +20,10 @@ fn main() {
         let id = it.next().unwrap().to_string();
         let op = it.next().unwrap_or("").to_string();
         let args: Vec<String> = it.map(|s| s.to_string()).collect();
-        let p = prop.clone();
-        let res = panic::catch_unwind(move || match p.as_str() {
-            "c01" => c01::run(&op, &args),
-            _ => panic!("unknown property"),
-        });
+        let res = panic::catch_unwind(move || run(&op, &args));
         let res = res.unwrap_or_else(|_| "PANIC".to_string());
         writeln!(out, "{} {}", id, res).unwrap();
+        out.flush().unwrap();
     }
 }
 
